@@ -60,6 +60,9 @@ func genObjSpec(t *rapid.T, id int) ObjSpec {
 		s.Len = rapid.IntRange(65, max(66, p1)).Draw(t, "len")
 	case 6:
 		s.Len = rapid.SampledFrom([]int{16383, 16384, 32768, 65536, 100 << 10}).Draw(t, "len")
+	case 7: // legacy compressed file smaller than the first read that decompresses to more than the callers' buffers
+		s.Compress, s.Repetitive = true, true
+		s.Len = rapid.IntRange(2*hdrBuf, 100<<10).Draw(t, "len")
 	default:
 		s.Len = rapid.IntRange(p1, 100<<10).Draw(t, "len")
 	}
@@ -85,8 +88,13 @@ func genRng(t *rapid.T, L uint64, P int64) Rng {
 		}
 	}
 	pos := func(lbl string) uint64 {
-		switch rapid.IntRange(0, 3).Draw(t, lbl+"-k") {
+		switch rapid.IntRange(0, 4).Draw(t, lbl+"-k") {
 		case 0:
+			return rapid.Uint64Range(0, L+2).Draw(t, lbl)
+		case 1: // beyond what a 2*hdrBuf buffer holds
+			if P > 0 && L > uint64(P)+hdrBuf+1 {
+				return rapid.Uint64Range(uint64(P)+hdrBuf+1, L).Draw(t, lbl)
+			}
 			return rapid.Uint64Range(0, L+2).Draw(t, lbl)
 		default:
 			return rapid.SampledFrom(anchors).Draw(t, lbl)
@@ -718,6 +726,11 @@ func TestC11Layers(t *testing.T) {
 				if c != "" {
 					lbls = append(lbls, "b:"+c)
 				}
+			}
+			if off, _, oor := Ref(q.r, L); !oor && partial(q.r) && q.o.Spec.Compress && len(q.o.Stored) < hdrBuf &&
+				len(q.o.Bin) > q.v.bufLen && int(off) > q.v.bufLen-(len(q.o.Bin)-len(q.o.Payload)) {
+				// small legacy compressed file that decompresses beyond the caller's buffer, range starts beyond the buffer
+				lbls = append(lbls, "cls:small-zstd-range-beyond-buffer")
 			}
 			rec.Case(cls != "", modeNames[q.r.Mode]+"|"+cls+"|"+form+"|"+size, lbls...)
 		}
